@@ -5,6 +5,9 @@
 open BinNums
 
 module L = Stdlib.List
+module String = Stdlib.String   (* Coq's String module is extracted too (Model/Accept.v) *)
+module Char = Stdlib.Char
+module Buffer = Stdlib.Buffer
 module H = Stdlib.Hashtbl
 
 (* ---------- numbers ---------- *)
@@ -782,6 +785,56 @@ let handle_graphop fields =
     end
   | _ -> raise (Parse "bad graphop line")
 
+
+(* ---------- family: accept (C04 acceptance, C16 compositionality) ---------- *)
+let rec nat_of_int (i : int) : Datatypes.nat = if i = 0 then Datatypes.O else Datatypes.S (nat_of_int (i - 1))
+let c04_key i =
+  let eq a = (nat_of_int i = a) in
+  if eq Templates.coq_T_assign_binary then "C04.assign_binary_rhs"
+  else if eq Templates.coq_T_gphase_ctrl then "C04.ctrl_gphase_operands"
+  else if eq Templates.coq_T_measure_arrow then "C04.measure_arrow"
+  else if eq Templates.coq_T_for_expr_stmt then "C04.for_expr_iterable_stmt_body"
+  else "C04.gate_def_empty_parens"
+let handle_accept fields =
+  match fields with
+  | ["T"; i; c; n] ->
+    let input = "template " ^ i ^ " in context " ^ c in
+    count_case input true;
+    let ii = int_of_string i and cc = int_of_string c in
+    let m = Accept.accepted_in (nat_of_int cc) (nat_of_int ii) in
+    if is_prefix "PANIC" n then oracle_fail "accept" input ("FAIL C01: parser panicked: " ^ n)
+    else begin
+      let impl_ok = (n = "0") in
+      if impl_ok <> m then mismatch "accept" input ("diagnostics=" ^ n) (if m then "accepted" else "rejected");
+      if not impl_ok then begin
+        if Accept.k_c04_rejected (nat_of_int ii) then known_hit "accept" (c04_key ii) input
+        else oracle_fail "accept" input ("FAIL C04: " ^ n ^ " syntax diagnostics on a statement of the reference grammar")
+      end
+    end
+  | ["C"; i; j; t; b] ->
+    let input = "templates " ^ i ^ " then " ^ j in
+    count_case input true;
+    if is_prefix "PANIC" t then oracle_fail "accept" input ("FAIL C01: parser panicked: " ^ t)
+    else if t = "-" then ()
+    else begin
+      let ni = nat_of_int (int_of_string i) and nj = nat_of_int (int_of_string j) in
+      let mt = Accept.composes_top ni nj and mb = Accept.composes_block ni nj in
+      if (t = "1") <> mt || (b = "1") <> mb then
+        mismatch "accept" input ("top=" ^ t ^ " block=" ^ b) (Printf.sprintf "top=%b block=%b" mt mb);
+      if t <> "1" || b <> "1" then begin
+        if Accept.is_let ni || Accept.is_let nj then known_hit "accept" "C16.let_context" input
+        else if Accept.k_c16 ni nj then known_hit "accept" "C16.assignment_glues_operator" input
+        else oracle_fail "accept" input "FAIL C16: the concatenation does not parse to the statements of its parts"
+      end
+    end
+  | ["P"; n; orc] | ["R"; n; orc] ->
+    count_case orc true;
+    ignore n;
+    if is_prefix "FAIL" orc then oracle_fail "accept" "generated" orc
+    else if is_prefix "KNOWN " orc then (match split_on ' ' orc with _ :: key :: _ -> known_hit "accept" key orc | _ -> ())
+    else if is_prefix "SKIP" orc then incr skipped
+  | _ -> raise (Parse "bad accept line")
+
 (* ---------- main loop ---------- *)
 let () =
   Array.iter (fun a -> if a = "--nodedupe" then dedupe := false) Sys.argv;
@@ -807,6 +860,7 @@ let () =
              | "shape" -> handle_shape fields
              | "graph" -> handle_graph fields
              | "graphop" -> handle_graphop fields
+             | "accept" -> handle_accept fields
              | _ -> raise (Parse ("unknown family " ^ fam)))
           with Parse m -> report "DRIVER-ERROR" [m; line]; incr mismatches)
        | [] -> ()
